@@ -46,12 +46,15 @@ for d in sorted(glob.glob(os.path.join(V, "seeded", "C*")) + glob.glob(os.path.j
         if r:
             meta["history"] = (f"round {rnd}, first pass without hints: " + ("caught" if r.get("check_exit") == 1 else f"MISSED (exit {r.get('check_exit')})")
                                + ("; scenario class then added to the harness" if r.get("check_exit") != 1 else ""))
+            if r.get("check_exit") != 1 and (meta.get("check_result") or {}).get("exit") == 0:
+                meta["history"] = (f"round {rnd}, first pass without hints: MISSED (exit 0); OPEN GAP: the scenario class is not yet "
+                                   "covered by the committed check (see DESIGN.md 11.0a)")
     conf = meta.setdefault("confirmed", {})
     if not conf.get("suite"):
         s = suite_of(rnd, key)
         if s:
             conf["suite"] = s
-    if "_obsolete" in d:
+    if "_obsolete" in d and not meta.get("obsolete"):
         meta["obsolete"] = ("valid and caught when delivered; a later fix: commit in /repo removed the latent defect the change relied on, "
                             "so on the current tree the patch no longer breaks the property (demo exits 0 with the patch)")
     json.dump(meta, open(mp, "w"), indent=1)
